@@ -1194,6 +1194,51 @@ def datetime_case(ctx):
                           f'{sorted((a | b) - whole)[:2]}, only in the whole {sorted(whole - (a | b))[:2]}', inp)
 
 
+def json_mixed_case(ctx):
+    """JSON objects whose key holds numbers and booleans that Python equates (1 == True, 0 == False) next to each other: they are
+    different cells ("1" / "True"), so no row may absorb another; JSON file and in-memory dict, whole table against its halves."""
+    import morph_kgc
+    d = os.path.join(ctx.tmp, 'jsonmixed')
+    os.makedirs(d, exist_ok=True)
+    # integers and booleans only: a float in the key would turn the integers of its half into floats (finding C11_F1)
+    half1 = [{'id': 'a', 'v': 1}, {'id': 'b', 'v': 0}, {'id': 'c', 'v': 7}]
+    half2 = [{'id': 'a', 'v': True}, {'id': 'b', 'v': False}, {'id': 'c', 'v': 1}]
+    pre = '@prefix rr: <http://www.w3.org/ns/r2rml#> . @prefix rml: <http://semweb.mmlab.be/ns/rml#> . @prefix ql: <http://semweb.mmlab.be/ns/ql#> .\n'
+    body = ('  rr:subjectMap [ rr:template "http://ex/e/{id}" ];\n'
+            '  rr:predicateObjectMap [ rr:predicate <http://ex/v>; rr:objectMap [ rml:reference "v" ] ] .\n')
+
+    def run_file(rows):
+        jp = os.path.join(d, 't.json')
+        with open(jp, 'w') as f:
+            json.dump({'it': rows}, f)
+        mp = os.path.join(d, 'file.ttl')
+        with open(mp, 'w') as f:
+            f.write(pre + f'<http://ex/TM> rml:logicalSource [ rml:source "{jp}"; rml:referenceFormulation ql:JSONPath; rml:iterator "$.it[*]" ];\n' + body)
+        return {t.strip() for t in morph_kgc.materialize_set(f'[CONFIGURATION]\nnumber_of_processes=1\nlogging_level=CRITICAL\n[DS]\nmappings={mp}\n')}
+
+    def run_dict(rows):
+        mp = os.path.join(d, 'mem.ttl')
+        with open(mp, 'w') as f:
+            f.write(pre + '<http://ex/TM> rml:logicalSource [ rml:source "{doc}"; rml:referenceFormulation ql:JSONPath; rml:iterator "$.it[*]" ];\n' + body)
+        return {t.strip() for t in morph_kgc.materialize_set(f'[CONFIGURATION]\nnumber_of_processes=1\nlogging_level=CRITICAL\n[DS]\nmappings={mp}\n',
+                                                             {'doc': {'it': rows}})}
+
+    for name, run_ in (('JSON file', run_file), ('in-memory dict', run_dict)):
+        inp = {'kind': 'json-mixed', 'source': name}
+        ctx.case(['json-mixed', name], nontrivial=True, kind=f'numbers and booleans Python equates in one JSON key ({name})')
+        ctx.traces_validated += 3
+        try:
+            whole, a, b = run_(half1 + half2), run_(half1), run_(half2)
+            rev = run_(half2 + half1)
+        except Exception as e:   # noqa: BLE001
+            ctx.violation(f'{name}: {type(e).__name__}: {str(e)[:200]}', inp)
+            continue
+        if whole != a | b or rev != whole:
+            ctx.violation(f'{name}: a key holding 1 / true / 0 / false: the result over the whole table is not the union of the results over its '
+                          f'halves or depends on the order of the objects: only in the union {sorted((a | b) - whole)[:2]}, order-dependent '
+                          f'{sorted(whole ^ rev)[:2]}', inp)
+
+
 def run(ctx, lean, findings):
     rng = ctx.rng
     drv = ctx.get_driver() if ctx.model_available else None
@@ -1209,6 +1254,7 @@ def run(ctx, lean, findings):
         ctx.notes.append(f'generated facts: {drv.call("c11_facts")}')
     mult = 3 if ctx.escalate else 1
     datetime_case(ctx)
+    json_mixed_case(ctx)
     if drv:
         coerce_paths(ctx, drv, rng, ctx.budget(150, 4000) * mult)
         i3_preprocess(ctx, drv, rng, ctx.budget(60, 2000) * mult, prekind)
@@ -1261,6 +1307,10 @@ def run(ctx, lean, findings):
 
 
 def replay(ctx, data):
+    if data.get('input', {}).get('kind') == 'json-mixed':
+        before = len(ctx.violations)
+        json_mixed_case(ctx)
+        return len(ctx.violations) > before
     if data.get('input', {}).get('kind') == 'datetime':
         before = len(ctx.violations)
         datetime_case(ctx)
